@@ -209,7 +209,14 @@ class CallMixin:
             st.emit("U", cname, label, self.arg_summary(st, args, kwargs), self.guards(st), site)
         else:
             st.emit("U", cname, label, self.arg_summary(st, args, kwargs), site)
-        res = Sym(("call", "construct" if ctor else cname, site), {FRESH} if ctor else {USER},
+        rprov = {FRESH} if ctor else {USER}
+        if not ctor and getattr(self.cfg, "callback_may_alias", False):
+            # an opaque callback may hand back (part of) what it was given
+            from .exprs import prov_of
+            for a_ in list(args) + list(kwargs.values()):
+                if not isinstance(a_, tuple) and a_ is not None:
+                    rprov |= (set(prov_of(st, a_)) & {RECV, ARG})
+        res = Sym(("call", "construct" if ctor else cname, site), rprov,
                   tags={"nonsentinel"} if ctor else ())
         outs = []
         if self.cfg.user_may_raise:
